@@ -12,4 +12,4 @@ git reset -q 2>/dev/null
 for p in "$@"; do
   (cd /verif && bin/check "$p" quick 2>&1 | tail -3)
 done
-cd /repo && git checkout -- . && git status --short | head -3
+cd /repo && git checkout -- . && git clean -fdq -- crates && git status --short | head -3
